@@ -29,6 +29,7 @@ VERSIONS = [
     ["a.txt", "s"],
     ["a.txt", "n.txt", "s"],
     ["s"],
+    ["a.txt", "a.txt.abstract", "s"],   # same entries as version 0 plus a sidecar abstract for a.txt
 ]
 
 
@@ -37,6 +38,8 @@ def _nodes(v):
     for name in VERSIONS[v]:
         if name == "s":
             nodes["/d/s"] = mv.Dir([], mtime=10)
+        elif name.endswith(".abstract"):
+            nodes["/d/" + name] = mv.File(b"An abstract added later\n", mtime=10)
         else:
             nodes["/d/" + name] = mv.File(b"data\n", mtime=10)
     return nodes
@@ -62,11 +65,11 @@ def _fresh(p, v):
 
 REF = {}
 for _p in range(7):
-    for _v in range(3):
+    for _v in range(len(VERSIONS)):
         REF[(_p, _v)] = _fresh(_p, _v)
 
 
-VPAIRS = [(x, y) for x in range(3) for y in range(3)]
+VPAIRS = [(x, y) for x in range(3) for y in range(3)] + [(0, 3), (3, 0)]
 
 
 def body_history(a: int, b: int, vv: int, m: int, dt: int, T: int, writable: bool) -> bool:
@@ -255,10 +258,10 @@ def obligations(tier, seed):
             id="C10.2-history[%s->%s]" % (dl.PROTO_NAMES[a], dl.PROTO_NAMES[b]),
             body="harness.C10:body_history",
             sig="a: int, b: int, vv: int, m: int, dt: int, T: int, writable: bool",
-            pre=["a == %d" % a, "b == %d" % b, "0 <= vv <= 8", "0 <= m", "0 <= dt", "0 <= T"],
+            pre=["a == %d" % a, "b == %d" % b, "0 <= vv <= 10", "0 <= m", "0 <= dt", "0 <= T"],
             desc="request via %s at time m, directory mutation, request via %s at time m+dt: second reply is the fresh rendering of the version at birth "
                  "iff writable and dt < T (no rewrite, age not refreshed), else of the current version (and the cache is renewed)" % (dl.PROTO_NAMES[a], dl.PROTO_NAMES[b]),
-            bounds="3x3 (version at birth, current version) pairs; unbounded integer m, dt, T >= 0; writability (all symbolic)",
+            bounds="3x3 (version at birth, current version) pairs + sidecar abstract added/removed; unbounded integer m, dt, T >= 0; writability (all symbolic)",
             timeout=240 if tier == "quick" else 600,
             functions=["handlers.dir.DirHandler.prepare/loadcache/savecache/getdirlist", "protocols.*.handle/writedir/renderobjinfo"],
         ))
